@@ -34,6 +34,13 @@ def lookup_intrinsic(pyf):
     import pathlib
     if getattr(pyf, "__name__", "") == "cwd" and getattr(pyf, "__self__", None) in (pathlib.Path, pathlib.PosixPath):
         return path_cwd_intrinsic
+    # methods of ghost model classes (library models that need the symbolic state, e.g. the path model of the CLI
+    # contract): the underlying function carries its handler
+    fn = getattr(pyf, "__func__", None)
+    h = getattr(fn, "_pyvc_intrinsic", None)
+    if h is not None:
+        recv = pyf.__self__
+        return lambda ex, st, args, kwargs, node: h(ex, st, recv, args, kwargs, node)
     # pint Quantity classes are created per registry: recognise by class hierarchy
     try:
         import pint
@@ -79,7 +86,7 @@ _PURE_MODULE_PREFIXES = ("math", "numpy", "builtins", "os.path", "posixpath", "p
 def is_pure_library_callable(f):
     if isinstance(f, type):
         return f in (int, float, str, bool, list, tuple, dict, set, frozenset, complex) or issubclass(f, enum.Enum) \
-            or (f.__module__ or "").startswith(("pathlib",))
+            or (f.__module__ or "").startswith(("pathlib",)) or getattr(f, "_pyvc_pure_model", False)
     if isinstance(f, types.MethodType) and isinstance(f.__self__, (enum.EnumMeta,)):
         return True
     if isinstance(f, types.MethodType) and isinstance(f.__self__, enum.Enum):
@@ -91,6 +98,9 @@ def is_pure_library_callable(f):
             return getattr(f, "__name__", "") not in ("print", "open", "input", "exec", "eval", "exit", "quit")
         if isinstance(self_, (str, bytes, tuple, frozenset, float, int)):
             return True
+        if isinstance(self_, list) and getattr(f, "__name__", "") == "append":
+            return True     # a concrete python list held as such (the process argument vector); states share it only
+                            # where the program itself aliases it
         return False
     if isinstance(f, np.ufunc):
         return True
@@ -1094,6 +1104,9 @@ def call_method(ex, recv, name, args, kwargs, st, node):
         except Exception as e:
             raise PathRaise(type(e), str(e))
         return from_concrete(ex, st, r)
+    if isinstance(recv, list) and name == "append" and all_concrete(args) and len(args) == 1:
+        recv.append(args[0])        # concrete python list held as such (the process argument vector)
+        return None
     raise Unsupported(f"method {name} on {type(recv).__name__}")
 
 
